@@ -148,7 +148,7 @@ def main():
                 pass
 
     # 1. proof obligations
-    ok_build, build_log = lean_build()
+    ok_build, build_log = lean_build('C12')
     audit = None
     if ok_build and not problems:
         audit = lean_audit(PROP, [])
